@@ -35,7 +35,7 @@ def check_item(item):
             return res
     eof = loader.flag("EOF_SUPPORT")
     try:
-        cp = cbuild.CProg(acc, "asan", sentinels=item.get("sentinels"))
+        cp = cbuild.CProg(acc, "asan0", sentinels=item.get("sentinels"))
     except cbuild.BuildError as e:
         res["status"] = "cbuild_failed"
         return res
@@ -82,7 +82,7 @@ def check_reject(item):
     # accepted: does it at least run clean?
     what = "constant that does not fit was accepted (%s)" % why
     try:
-        with cbuild.CProg(acc, "asan") as cp:
+        with cbuild.CProg(acc, "asan0") as cp:
             recs, status = cp.run(cp.op_start() + cp.op_feed(b"aa") + cp.op_snap(), timeout=30)
             if status != "ok":
                 what += "; at run time: %s %s" % (status, next((l for l in cp.stderr.splitlines() if "ERROR" in l or "runtime error" in l), "").strip()[:200])
@@ -107,7 +107,8 @@ def run(tier, seed):
             for k, lv in enumerate(strprogs.LEVELS):
                 if tier == "quick" and (i + j + k + seed) % 3 != 0:
                     continue
-                items.append(dict(label=p["label"], src=p["src"], argv=st + lv, alphabet=p["alphabet"], sentinels=p["sentinels"], L=L))
+                zl = ["-fzero-len-input-support"] if (i + 2 * j + k) % 4 == 0 else []      # empty chunks at the end of exactly sized buffers
+                items.append(dict(label=p["label"], src=p["src"], argv=st + lv + zl, alphabet=p["alphabet"], sentinels=p["sentinels"], L=L))
                 if not p["uses_oob_index"] and st in ([], ["-fallocate-str-space-dynamic-on-demand"]):
                     items.append(dict(label=p["label"], src=p["src"], argv=st + lv + ["-funsafe-string-indexing"], alphabet=p["alphabet"], sentinels=p["sentinels"], L=L))
     base = progs.corpus() + progs.features()
@@ -115,7 +116,8 @@ def run(tier, seed):
         for j, st in enumerate([[], ["-fallocate-str-space-dynamic-on-demand", "-fdelete-string-free-memory"], ["-fallocate-str-space-dynamic", "-O3"]]):
             if tier == "quick" and (i + j + seed) % 3 != 0:
                 continue
-            items.append(dict(label=p["label"], src=p["src"], argv=p["argv"] + st, L=3 if tier == "quick" else 4))
+            zl = ["-fzero-len-input-support"] if (i + j) % 2 == 0 and "-fzero-len-input-support" not in p["argv"] else []
+            items.append(dict(label=p["label"], src=p["src"], argv=p["argv"] + st + zl, L=3 if tier == "quick" else 4))
     for src, why in strprogs.MUST_REJECT:
         for st in ([], ["-fallocate-str-space-dynamic"]):
             items.append(dict(reject=True, src=src, why=why, argv=st, label="reject"))
@@ -148,7 +150,7 @@ def run(tier, seed):
                          dict(src=it["src"], argv=it["argv"], alphabet=it.get("alphabet"), L=it.get("L", 3), reject=bool(it.get("reject")), why=it.get("why"), sentinels=it.get("sentinels")))
     ck.extra.update(stats)
     ck.exhaustive = True
-    ck.assumptions += ["clang 14 ASan/UBSan/LSan as the runtime monitor; overruns inside the state struct are caught by sentinel outputs declared after each buffer",
+    ck.assumptions += ["clang 14 ASan/UBSan/LSan at -O0 (every load/store of the generated text is executed and instrumented) as the runtime monitor; chunks live in exactly sized heap blocks, so a read of *end is an overflow; overruns inside the state struct are caught by sentinel outputs declared after each buffer",
                        "reads of buffer bytes that were never written are avoided by the programs (MemorySanitizer is not used)",
                        "capacity/overflow *routing* (which handler runs) is decided under C01/C06; here only that no store happens beyond the capacity"]
     return ck.finish()
